@@ -137,7 +137,7 @@ def main():
             R.broke("correspondence:error the model has no class for: %s (%s %s %s)" % (c["err_text"], c["endpoint"], c["gen"], c["class"]), json.dumps(spec_of(c)))
     cs = [c for c in cs if c["err"] not in ("EUnknown", "EPanic")]
     shards = list(vp.chunks(cs, 400))
-    with concurrent.futures.ThreadPoolExecutor(max_workers=8) as ex:   # shards are independent coqc runs
+    with concurrent.futures.ThreadPoolExecutor(max_workers=14) as ex:   # shards are independent coqc runs
         results = list(ex.map(lambda a: vp.coq_eval("C10p%d_%d" % (os.getpid(), a[0]), cases_v(data["lock"], a[1])), enumerate(shards)))
     for f in glob.glob(os.path.join(vp.COQ, "gen", "*cases_C10p%d_*" % os.getpid())) + glob.glob(os.path.join(vp.COQ, "gen", ".cases_C10p%d_*" % os.getpid())):
         os.remove(f)
